@@ -154,3 +154,10 @@ theorem C05_glob_is_shell_glob (p n : Str) (hnd : S.noDoubleStar p = true) :
 /-- non-vacuity: the token list of `foo-[0-9]*` has no `**` and matches foo-1 declaratively -/
 example : GM [.char 'f', .within [.range '0' '9'], .anySeq] ['f', '1', 'x'] :=
   .one (by decide) (by decide) (by decide) (.one (by decide) (by decide) (by decide) (.star 1 .nil))
+
+/-- non-vacuity of `C05_glob_is_shell_glob`: `foo-[0-9]*` has no `**`, is well formed, and the
+    raw-text semantics accepts foo-1.0 and rejects fooX1 -/
+example : S.noDoubleStar "foo-[0-9]*".toList = true ∧ S.globWF 11 "foo-[0-9]*".toList = true ∧
+    S.globMatches "foo-[0-9]*".toList "foo-1.0".toList = true ∧
+    S.globMatches "foo-[0-9]*".toList "fooX1".toList = false ∧
+    S.globWF 7 "foo-[0".toList = false := by decide
